@@ -9,6 +9,7 @@ import Aqv.Lemmas.ConsensusUncles
 import Aqv.Model.ConsensusGen
 import Aqv.Gen.UncleExemptions
 import Aqv.Lemmas.Translated.Params
+import Aqv.Lemmas.Translated.Consensus
 namespace Aqv.Props.C13
 open Aqv.Consensus
 
@@ -579,5 +580,26 @@ theorem isHF_code_is_model (c : Config) (hf : Nat) (h : hf < 2 ^ 63) (num : Nat)
 example : Aqv.Gen.Translated.ChainConfig_IsHF (Aqv.Lemmas.Translated.hfMapOf ⟨1, [(5, 100)]⟩) 5 (some 100) = some true ∧
     Aqv.Gen.Translated.ChainConfig_IsHF (Aqv.Lemmas.Translated.hfMapOf ⟨1, [(5, 100)]⟩) 5 (some 99) = some false ∧
     Aqv.Gen.Translated.ChainConfig_IsHF (Aqv.Lemmas.Translated.hfMapOf ⟨1, [(5, 100)]⟩) 6 (some 1000) = some false := by decide
+
+/-- tie by translation, difficulty rules: consensus/aquahash.calcDifficultyStarting and calcDifficultyHF1 (math/big code updating
+    `x`, `y` in place; translated from go/ssa on every run) never panic on a parent header with non-nil Time / Difficulty and
+    compute the model's `calcDifficultyStarting` / `calcDifficultyHF1`, at the regenerated difficulty parameters
+    (`Gen.diffParams`: divisor, minima and mainnet chain id dumped from the compiled params package) and big1 = 1, big10 = 10,
+    bigMinus99 = −99.  Every package-level variable the Go code reads is a named argument. -/
+theorem calcDifficulty_homestead_code_is_model (time : UInt64) (parent : Header) (chainId : UInt64) :
+    Aqv.Gen.Translated.calcDifficultyStarting (g_aquahash_big1 := 1) (g_aquahash_big10 := 10) (g_aquahash_bigMinus99 := -99)
+        (g_params_DifficultyBoundDivisor := Gen.diffParams.div) (g_params_MinimumDifficultyGenesis := Gen.diffParams.minGenesis)
+        (g_params_MainnetChainConfig_ChainId := some (Gen.diffParams.mainnetChainId : Int)) time
+        (parent_Difficulty := some parent.difficulty) (parent_Time := some (parent.time : Int)) chainId
+      = some (calcDifficultyStarting Gen.diffParams time.toNat parent chainId.toNat) ∧
+    Aqv.Gen.Translated.calcDifficultyHF1 (g_aquahash_big1 := 1) (g_aquahash_big10 := 10) (g_aquahash_bigMinus99 := -99)
+        (g_params_DifficultyBoundDivisor := Gen.diffParams.div) (g_params_MinimumDifficultyHF1 := Gen.diffParams.minHF1)
+        (g_params_MainnetChainConfig_ChainId := some (Gen.diffParams.mainnetChainId : Int)) time
+        (parent_Difficulty := some parent.difficulty) (parent_Time := some (parent.time : Int)) chainId
+      = some (calcDifficultyHF1 Gen.diffParams time.toNat parent chainId.toNat) :=
+  ⟨Aqv.Lemmas.Translated.calcDifficultyStarting_translated_eq Gen.diffParams (by decide) (by decide) time parent chainId,
+   Aqv.Lemmas.Translated.calcDifficultyHF1_translated_eq Gen.diffParams (by decide) (by decide) time parent chainId⟩
+
+example : calcDifficultyStarting Gen.diffParams 1000 ⟨0, 0, 5, 900, 1000000, 0, 0, 0⟩ 7 = 995608 := by decide
 
 end Aqv.Props.C13
